@@ -460,6 +460,32 @@ def e_params_array(d, r, lit):
     return f"message:{sec}.params-array"
 
 
+def e_tail_edit(d, r, lit):
+    """Drop the LAST element of some list, or append a copy of its last element: the pair of documents
+    where one list is a prefix of the other (what a zip()-based comparison truncates)."""
+    lists: List[List[Any]] = []
+
+    def walk(x: Any) -> None:
+        if isinstance(x, dict):
+            for v in x.values():
+                walk(v)
+        elif isinstance(x, list):
+            if x and all(isinstance(v, dict) for v in x):
+                lists.append(x)
+            for v in x:
+                walk(v)
+
+    walk(d)
+    if not lists:
+        return e_add_structure(d, r, lit)
+    lst = r.choice(lists)
+    if r.random() < 0.5 and len(lst) >= 1:
+        lst.pop()
+        return "tail:drop-last"
+    lst.append(copy.deepcopy(lst[-1]))
+    return "tail:append-copy-of-last"
+
+
 def e_metadata(d, r, lit):
     d["metaData"]["version"] = d["metaData"]["version"] + ".1"
     return "metadata:version"
@@ -467,7 +493,7 @@ def e_metadata(d, r, lit):
 
 STRUCTURAL_EDITS = [e_add_structure, e_add_enum, e_add_alias, e_add_request, e_add_notification, e_remove_decl, e_reorder,
                     e_edit_property, e_edit_property, e_edit_message, e_edit_message, e_edit_enum, e_edit_alias, e_edit_extends, e_metadata,
-                    e_mutate_type_node, e_mutate_type_node, e_mutate_type_node, e_mutate_type_node, e_big_enum_value, e_params_array]
+                    e_mutate_type_node, e_mutate_type_node, e_mutate_type_node, e_mutate_type_node, e_big_enum_value, e_params_array, e_tail_edit, e_tail_edit]
 
 
 def annotate_only(d: Dict[str, Any], r: random.Random, ref: Ref) -> str:
